@@ -852,8 +852,13 @@ def r7(ctx, R):
     for c in calls_in(f.node):
         if isinstance(c.func, ast.Attribute) and c.func.attr == "append" and c.args and isinstance(c.args[0], ast.List) and c.args[0].elts and unparse(c.args[0].elts[0]) == f"len({stack})":
             group = unparse(c.func.value)
-        elif isinstance(c.func, ast.Attribute) and c.func.attr == "append" and c.args and isinstance(c.args[0], ast.Call) and isinstance(c.args[0].func, ast.Name) and c.args[0].func.id[:1].isupper() and c.args[0].args and unparse(c.args[0].args[0]) == f"len({stack})":
-            group = unparse(c.func.value)  # a record (dataclass) per #elif group instead of a two-element list
+        elif isinstance(c.func, ast.Attribute) and c.func.attr == "append" and c.args:
+            a0 = c.args[0]
+            if isinstance(a0, ast.Name):
+                rd = [v for v in reaching_defs(ctx, f, c, a0.id) if v is not None and v != "param"]
+                a0 = rd[0] if len(rd) == 1 else a0
+            if isinstance(a0, ast.Call) and isinstance(a0.func, ast.Name) and a0.func.id[:1].isupper() and a0.args and unparse(a0.args[0]) == f"len({stack})":
+                group = unparse(c.func.value)  # a record (dataclass) per #elif group instead of a two-element list
     if not stack or not group:
         raise AnalysisError("preprocess_file: conditional stack / #elif group list not identified")
     # arms
@@ -897,6 +902,9 @@ def r7(ctx, R):
         facts = F.at(c) or set()
         if any(b[0] == "cond" and b[2] is True and group in b[1] and f"len({stack})" in b[1] for b in facts):
             R.ok("C08.R7", f.short, "group entry pushed once per chain", loc(f, c))
+        elif any(b[0] in ("cond", "null", "nonnull", "truthy", "falsy") for b in facts if any(isinstance(x, str) and __import__("re").search(r"(?<![.\w])\w*group\w*\(", x.lower()) for x in b[1:2])):
+            # guarded by some test about the group (a helper such as `current_elif_group() is None`), in a form the rule does not read
+            R.undecided("C08.R7", f.short, "group entry pushed once per chain", loc(f, c), "the push is guarded by a test about the group list that the rule does not recognise")
         else:
             R.violation("C08.R7", f.short, "group entry pushed once per chain", loc(f, c), "a group entry is pushed for every #elif, not only for the first of a chain")
 
